@@ -37,13 +37,13 @@ def twin_args(ctx, quick, thorough):
 
 
 def run_c01(ctx):
-    return [run_olh(ctx, 'twin', twin_args(ctx, ['-histories', '40', '-blocks', '16', '-maxtxs', '8'], ['-histories', '600', '-blocks', '30', '-maxtxs', '10'])),
-            run_olh(ctx, 'shell', twin_args(ctx, ['-histories', '25', '-blocks', '12'], ['-histories', '300', '-blocks', '24']))]
+    return [run_olh(ctx, 'twin', twin_args(ctx, ['-histories', '150', '-blocks', '16', '-maxtxs', '8'], ['-histories', '600', '-blocks', '30', '-maxtxs', '10'])),
+            run_olh(ctx, 'shell', twin_args(ctx, ['-histories', '80', '-blocks', '14'], ['-histories', '300', '-blocks', '24']))]
 
 
 def run_c02(ctx):
-    return [run_olh(ctx, 'ledger', twin_args(ctx, ['-histories', '120', '-blocks', '14', '-maxtxs', '8'], ['-histories', '1500', '-blocks', '24', '-maxtxs', '10'])),
-            run_olh(ctx, 'ledger-direct', twin_args(ctx, ['-histories', '80', '-blocks', '14', '-maxtxs', '8'], ['-histories', '1000', '-blocks', '24', '-maxtxs', '10']))]
+    return [run_olh(ctx, 'ledger', twin_args(ctx, ['-histories', '300', '-blocks', '14', '-maxtxs', '8'], ['-histories', '1500', '-blocks', '24', '-maxtxs', '10'])),
+            run_olh(ctx, 'ledger-direct', twin_args(ctx, ['-histories', '200', '-blocks', '14', '-maxtxs', '8'], ['-histories', '1000', '-blocks', '24', '-maxtxs', '10']))]
 
 
 def run_c18(ctx):
@@ -51,23 +51,23 @@ def run_c18(ctx):
 
 
 def run_c05(ctx):
-    return [run_olh(ctx, 'replay', twin_args(ctx, ['-histories', '60', '-blocks', '16', '-maxtxs', '8'], ['-histories', '800', '-blocks', '30', '-maxtxs', '10'])),
-            run_olh(ctx, 'shell', twin_args(ctx, ['-histories', '25', '-blocks', '12'], ['-histories', '300', '-blocks', '24']))]
+    return [run_olh(ctx, 'replay', twin_args(ctx, ['-histories', '200', '-blocks', '16', '-maxtxs', '8'], ['-histories', '800', '-blocks', '30', '-maxtxs', '10'])),
+            run_olh(ctx, 'shell', twin_args(ctx, ['-histories', '80', '-blocks', '14'], ['-histories', '300', '-blocks', '24']))]
 
 
 def run_c06(ctx):
-    return [run_olh(ctx, 'dropfailed', twin_args(ctx, ['-histories', '40', '-blocks', '16', '-maxtxs', '8'], ['-histories', '600', '-blocks', '30', '-maxtxs', '10'])),
-            run_olh(ctx, 'shell', twin_args(ctx, ['-histories', '25', '-blocks', '12'], ['-histories', '300', '-blocks', '24']))]
+    return [run_olh(ctx, 'dropfailed', twin_args(ctx, ['-histories', '150', '-blocks', '16', '-maxtxs', '8'], ['-histories', '600', '-blocks', '30', '-maxtxs', '10'])),
+            run_olh(ctx, 'shell', twin_args(ctx, ['-histories', '80', '-blocks', '14'], ['-histories', '300', '-blocks', '24']))]
 
 
 def run_c07(ctx):
-    return [run_olh(ctx, 'inject', twin_args(ctx, ['-histories', '50', '-blocks', '18', '-maxtxs', '8'], ['-histories', '800', '-blocks', '30', '-maxtxs', '10'])),
-            run_olh(ctx, 'shell', twin_args(ctx, ['-histories', '25', '-blocks', '12'], ['-histories', '300', '-blocks', '24']))]
+    return [run_olh(ctx, 'inject', twin_args(ctx, ['-histories', '180', '-blocks', '18', '-maxtxs', '8'], ['-histories', '800', '-blocks', '30', '-maxtxs', '10'])),
+            run_olh(ctx, 'shell', twin_args(ctx, ['-histories', '80', '-blocks', '14'], ['-histories', '300', '-blocks', '24']))]
 
 
 def run_c08(ctx):
-    return [run_olh(ctx, 'crash', twin_args(ctx, ['-histories', '30', '-blocks', '14', '-maxtxs', '8'], ['-histories', '400', '-blocks', '30', '-maxtxs', '10'])),
-            run_olh(ctx, 'shell', twin_args(ctx, ['-histories', '25', '-blocks', '12'], ['-histories', '300', '-blocks', '24']))]
+    return [run_olh(ctx, 'crash', twin_args(ctx, ['-histories', '100', '-blocks', '14', '-maxtxs', '8'], ['-histories', '400', '-blocks', '30', '-maxtxs', '10'])),
+            run_olh(ctx, 'shell', twin_args(ctx, ['-histories', '80', '-blocks', '14'], ['-histories', '300', '-blocks', '24']))]
 
 
 SHELL_ASSUME = [
